@@ -188,7 +188,7 @@ func vKeyIdx(b []byte) int {
 func (c *vCfg) coq() string {
 	gk := "None"
 	if c.gk != nil {
-		gk = fmt.Sprintf("(Some (%s,%s,%d))", cBool(c.dir == "bidi"), cBool(c.dir == "inverse"), vKeyIdx(c.gk))
+		gk = fmt.Sprintf("(Some (%s,%s,%d))", cBool(c.dir == "bidi" || c.dir == "bidirectional"), cBool(c.dir == "inverse"), vKeyIdx(c.gk))
 	}
 	sk := "None"
 	if c.sk != nil {
@@ -241,7 +241,7 @@ func vClientHMACKey(key []byte, dir string, size int) []byte {
 		size = 64
 	}
 	switch dir {
-	case "inverse", "bidi":
+	case "inverse", "bidi", "bidirectional":
 		return key[64 : 64+size]
 	default:
 		return key[192 : 192+size]
@@ -261,6 +261,7 @@ type vMsg struct {
 	tagLen        int    // when hkey == nil
 	flipTag       bool
 	flipEnc       bool
+	swapQuarters  bool // crypt: keys taken from the other direction's quarters (what a server, not a client, would use)
 	wkc           []byte // crypt2
 	note          string
 	rnd           *vRng
@@ -291,8 +292,14 @@ func (g *vMsg) wire() []byte {
 		head := vCat(h, vBE64(g.sid), vBE32(g.rpid), vBE32(g.ts))
 		var tag, enc []byte
 		if g.hkey != nil {
-			tag = vHMAC(g.digest, g.hkey[192:224], vCat(head, tail))
-			enc = vCTR(g.hkey[128:160], tag[:16], tail)
+			// tls-crypt has a fixed key direction: the client authenticates with key[192:224] and encrypts with
+			// key[128:160] (OpenVPN key2 layout, KEY_DIRECTION_INVERSE on the client); group_key_direction does not apply
+			hk, ck := g.hkey[192:224], g.hkey[128:160]
+			if g.swapQuarters {
+				hk, ck = g.hkey[64:96], g.hkey[0:32]
+			}
+			tag = vHMAC(g.digest, hk, vCat(head, tail))
+			enc = vCTR(ck, tag[:16], tail)
 		} else {
 			tag, enc = g.rnd.Bytes(32), g.rnd.Bytes(5)
 		}
@@ -359,6 +366,24 @@ func (t *vTables) cryptWith(body []byte, hdr *MessageHeader, sk *StaticKey) {
 		return
 	}
 	key, iv := sk.GetServerDecryptKey(CryptCipherDefault.SizeKey), mc.HMAC[:16]
+	// besides what the module's own key selectors pick, the answers for the key quarters the OpenVPN documentation
+	// prescribes for tls-crypt (client cipher key[128:160], client HMAC key[192:224], no direction option): a model
+	// that selects keys correctly must find its tag here even when the module selected other quarters
+	func() {
+		defer func() { _ = recover() }()
+		dk, hk := sk.KeyBytes[128:160], sk.KeyBytes[192:224]
+		pl2 := vCTR(dk, iv, mc.Encrypted)
+		t.addAE(dk, iv, mc.Encrypted, pl2)
+		m2 := &MessageCrypt{}
+		if m2.FromBytesHeadless(body, hdr) != nil || m2.FromBytesCrypt(pl2) != nil {
+			return
+		}
+		for i, ad := range AuthDigests {
+			if ad.Size == len(m2.HMAC) {
+				t.addHM(i, hk, m2.ToBytesAuth(), vHMAC(i, hk, m2.ToBytesAuth()))
+			}
+		}
+	}()
 	pl := CryptCipherDefault.Decryptor(key, iv, mc.Encrypted)
 	t.addAE(key, iv, mc.Encrypted, pl)
 	if mc.FromBytesCrypt(pl) != nil {
@@ -388,6 +413,9 @@ func vBuildTables(c *vCfg, body []byte, hb byte) *vTables {
 		for i, ad := range AuthDigests {
 			if ad.Size == len(ma.HMAC) {
 				t.addHM(i, c.m.groupKeyAuth.GetClientAuthKey(ad.Size), ma.ToBytesAuth(), ad.HMACGenerateOnClient(c.m.groupKeyAuth, ma.ToBytesAuth()))
+				// and for the quarter the documentation prescribes for tls-auth under the configured direction
+				dk := vClientHMACKey(c.gk, c.dir, ad.Size)
+				t.addHM(i, dk, ma.ToBytesAuth(), vHMAC(i, dk, ma.ToBytesAuth()))
 			}
 		}
 	}()
@@ -488,6 +516,9 @@ func (e *vOvpn) match(c *vCfg, ld int, tcp bool, in []byte, cls string, nt bool)
 	}
 	if r.code == vYes || r.code == vPanic {
 		mod = (mod + 1) / 2
+	}
+	if c.dir != "" && c.crypt {
+		mod = (mod + 2) / 3 // key selection per mode and direction: sampled more densely
 	}
 	if e.thin > 1 && !vThorough() {
 		mod *= e.thin
@@ -665,7 +696,7 @@ func (e *vOvpn) c14(c *vCfg, v vVariant, tcp bool) {
 			okTag = okTag && same && (c.ad < 0 || c.ad == g.digest)
 		}
 		if g.mode == 2 {
-			okTag = okTag && g.digest == 4
+			okTag = okTag && g.digest == 4 && !g.swapQuarters
 		}
 	}
 	wkcOK := false
@@ -763,6 +794,15 @@ func TestVerifMovpn(t *testing.T) {
 		func() *vCfg { c := all("all+keys+ignore_crypto"); c.igt, c.igc = true, true; c.gk = e.gk; c.sk = e.sk; return c }(),
 		func() *vCfg { c := all("all+keys+timestamps"); c.gk = e.gk; c.sk = e.sk; return c }(),
 		{name: "auth+crypt+key", auth: true, crypt: true, igt: true, gk: e.gk, ad: -1},
+		// every value of group_key_direction x {auth, crypt}: the option is documented for auth mode only
+		{name: "auth+key+normal", auth: true, igt: true, gk: e.gk, dir: "normal", ad: -1},
+		{name: "auth+key+bidirectional", auth: true, igt: true, gk: e.gk, dir: "bidirectional", ad: -1},
+		{name: "crypt+key+normal", crypt: true, igt: true, gk: e.gk, dir: "normal", ad: -1},
+		{name: "crypt+key+inverse", crypt: true, igt: true, gk: e.gk, dir: "inverse", ad: -1},
+		{name: "crypt+key+bidi", crypt: true, igt: true, gk: e.gk, dir: "bidi", ad: -1},
+		{name: "crypt+key+bidirectional", crypt: true, igt: true, gk: e.gk, dir: "bidirectional", ad: -1},
+		{name: "auth+crypt+key+inverse", auth: true, crypt: true, igt: true, gk: e.gk, dir: "inverse", ad: -1},
+		func() *vCfg { c := all("all+keys+bidi"); c.igt = true; c.gk = e.gk; c.sk = e.sk; c.dir = "bidi"; return c }(),
 	}
 	for _, c := range cfgs {
 		if err := c.provision(ctx); err != nil {
@@ -842,6 +882,7 @@ func TestVerifMovpn(t *testing.T) {
 	add(mut(2, func(g *vMsg) { g.hkey, g.ts = e.gk, nowS-3600 }), "crypt timestamp one hour old", true)
 	add(mut(2, func(g *vMsg) { g.hkey, g.keyid = e.gk, 5 }), "crypt key id 5", true)
 	add(mut(2, func(g *vMsg) {}), "crypt random tag and ciphertext", true)
+	add(mut(2, func(g *vMsg) { g.hkey, g.swapQuarters = e.gk, true }), "crypt keyed with the server-to-client quarters of the group key", true)
 	for _, d := range []int{8, 10, 13, 15} {
 		d := d
 		v := add(mut(2, func(g *vMsg) { g.hkey, g.digest = e.gk, d }), "crypt tag computed with "+AuthDigests[d].Names[0]+" instead of SHA-256", true)
